@@ -1,4 +1,135 @@
-import DcVerif.Model.Ring
+import DcVerif.Lemmas.Ring
+/-!
+# C04 — every published event is delivered exactly once, in order (single-producer pipelines)
+
+Model: `Model/Ring.lean` (every facade operation of the real code is one step; both wait strategies). All theorems
+quantify over every ring size, every stage/handler topology, every batch list and **every schedule** (`Reachable`).
+
+Full statement of the property: *every handler is invoked for every published sequence number exactly once, in
+strictly increasing order without gaps, and never for a sequence that is not yet published.* For the single producer the
+code violates the first part for exactly one sequence number (known finding F5): the sequencer numbers from 0 while
+consumers start at `cursor + 1 = 1`, so sequence 0 is written but never delivered. What is proved:
+
+* `c04_log_is_prefix`      — at every moment each handler has been handed exactly `1, 2, …, m` (once each, in order, no
+                              gaps) for some `m ≤ cursor`;
+* `c04_handle_only_published` — a handler call for `i` happens only when `i ≤ cursor`, and `i` has been written;
+* `c04_delivered_after_drain` — once `drain` has returned and a handler thread has terminated it has been handed exactly
+                              `1 … cursor`;
+* `c04_single_partial`     — …which is every written sequence except 0: `written = 0 :: log` (or nothing was written);
+* `c04_single_first_event_never_delivered` — the negation of the full statement (F5): sequence 0 is in no log, ever,
+                              although it is written as soon as any batch is.
+
+Payload integrity (clause "sees exactly the payload that was written") is not part of this model's state; it is checked on
+the implementation's events by the correspondence run (driver oracle) and follows, at the level of slots, from C05.
+-/
 namespace C04
-theorem placeholder : True := trivial
+open Ring
+
+/-- the sequences handed so far to handler `(k,j)` are exactly `1 … m` for its progress counter `m` -/
+def progress (c : Cons) : Nat :=
+  if c.pc = .handle then c.i - 1 else if c.pc = .publish then c.avail else c.cur
+
+theorem c04_log_is_prefix {x : PSt} (hr : Reachable x) (k j : Nat) (hk : k < x.s.K) (hj : j < x.s.h k) :
+    (x.s.cons k j).log = List.range' 1 (progress (x.s.cons k j)) ∧ progress (x.s.cons k j) ≤ x.s.cursor := by
+  have hA := reachable_inv hr
+  obtain ⟨hI, hK, hP, hb⟩ := hA
+  have hc := hI.2 k j hk hj
+  have hup := chain_up x.s hI k j hk hj
+  unfold progress
+  by_cases h1 : (x.s.cons k j).pc = .handle
+  · have hav := avail_le_cursor x.s hI k j hk hj (by simp [h1])
+    have := hc.iLe h1
+    simp only [h1, if_true]
+    exact ⟨hc.logH h1, by omega⟩
+  · by_cases h2 : (x.s.cons k j).pc = .publish
+    · have hav := avail_le_cursor x.s hI k j hk hj (by simp [h2])
+      simp only [h1, h2, if_false, if_true]
+      exact ⟨hc.logP h2, hav⟩
+    · simp only [h1, h2, if_false]
+      exact ⟨hc.logO h1 h2, hup⟩
+
+/-- strictly increasing, gap-free, no repetition: immediate from `log = [1 … m]` -/
+theorem c04_log_strictly_increasing {x : PSt} (hr : Reachable x) (k j : Nat) (hk : k < x.s.K) (hj : j < x.s.h k) :
+    List.Pairwise (· < ·) (x.s.cons k j).log := by
+  rw [(c04_log_is_prefix hr k j hk hj).1]
+  exact List.pairwise_lt_range' (step := 1) (by omega)
+
+/-- a handler is about to be invoked for `i` only if `i` is published (`i ≤ cursor`) and written -/
+theorem c04_handle_only_published {x : PSt} (hr : Reachable x) (k j : Nat) (hk : k < x.s.K) (hj : j < x.s.h k)
+    (hpc : (x.s.cons k j).pc = .handle) (hi : (x.s.cons k j).i ≤ (x.s.cons k j).avail) :
+    (x.s.cons k j).i ≤ x.s.cursor ∧ (x.s.cons k j).i ∈ x.p.written := by
+  obtain ⟨hI, hK, hP, hb⟩ := reachable_inv hr
+  have hav := avail_le_cursor x.s hI k j hk hj (by simp [hpc])
+  refine ⟨by omega, ?_⟩
+  rw [hP.wrote]
+  have hcur : (x.s.cons k j).i ≤ x.s.cursor := by omega
+  have hci := hI.2 k j hk hj
+  have hne := hci.nextEq (by simp [hpc])
+  have hge := hci.iGe hpc
+  simp only [List.mem_range'_1]
+  by_cases hw : x.p.pc = .write ∨ x.p.pc = .publish
+  · have := hP.wr hw
+    simp only [hw, if_true]
+    rcases this.1 with h1 | ⟨h1, h2⟩ <;> omega
+  · simp only [hw, if_false]
+    by_cases hidle : x.p.pc.idle = true
+    · rcases hP.nw hidle with h1 | ⟨h1, h2⟩ <;> omega
+    · have hcl : x.p.pc = .gateCheck ∨ x.p.pc = .gateLoad := by
+        cases hp : x.p.pc <;> simp_all [PPc.idle]
+      have := hP.claim hcl
+      rcases this.1 with h1 | ⟨h1, h2⟩ <;> omega
+
+/-- once `drain` (and `Drop`) have completed, a handler thread that has terminated has been handed exactly `1 … cursor` -/
+theorem c04_delivered_after_drain {x : PSt} (hr : Reachable x) (hp : x.p.pc = .done)
+    (k j : Nat) (hk : k < x.s.K) (hj : j < x.s.h k) (hc : (x.s.cons k j).pc = .done) :
+    (x.s.cons k j).log = List.range' 1 x.s.cursor := by
+  obtain ⟨hI, hK, hP, hb⟩ := reachable_inv hr
+  have hci := hI.2 k j hk hj
+  have hlog := hci.logO (by simp [hc]) (by simp [hc])
+  have hup := chain_up x.s hI k j hk hj
+  have hlow := below_all x.s hI hK (x.p.nextWrite - 1) (hP.drained (by simp [hp, PPc.drained]))
+    (x.s.K - 1 - k) k j (by omega) hj
+  have hnw := hP.nw (by simp [hp, PPc.idle])
+  have : (x.s.cons k j).cur = x.s.cursor := by rcases hnw with h1 | ⟨h1, h2⟩ <;> omega
+  rw [hlog, this]
+
+/-- **partial C04**: after shutdown every terminated handler was handed every written sequence except sequence 0 -/
+theorem c04_single_partial {x : PSt} (hr : Reachable x) (hp : x.p.pc = .done)
+    (k j : Nat) (hk : k < x.s.K) (hj : j < x.s.h k) (hc : (x.s.cons k j).pc = .done) :
+    x.p.written = [] ∨ x.p.written = 0 :: (x.s.cons k j).log := by
+  obtain ⟨hI, hK, hP, hb⟩ := reachable_inv hr
+  rw [c04_delivered_after_drain hr hp k j hk hj hc, hP.wrote]
+  simp only [hp, reduceCtorEq, or_self, if_false]
+  rcases hP.nw (by simp [hp, PPc.idle]) with h1 | ⟨h1, h2⟩
+  · right; rw [← h1, List.range'_succ]
+  · left; simp [h2]
+
+/-- **F5, negation of the full statement**: sequence 0 is never handed to any handler … -/
+theorem c04_single_first_event_never_delivered {x : PSt} (hr : Reachable x) (k j : Nat)
+    (hk : k < x.s.K) (hj : j < x.s.h k) : 0 ∉ (x.s.cons k j).log := by
+  rw [(c04_log_is_prefix hr k j hk hj).1]
+  simp [List.mem_range'_1]
+
+/-- … although it is written as soon as anything is written -/
+theorem c04_single_first_event_written {x : PSt} (hr : Reachable x) (hne : x.p.written ≠ []) : 0 ∈ x.p.written := by
+  obtain ⟨hI, hK, hP, hb⟩ := reachable_inv hr
+  rw [hP.wrote] at hne ⊢
+  cases hn : (if x.p.pc = .write ∨ x.p.pc = .publish then x.p.w else x.p.nextWrite) with
+  | zero => rw [hn] at hne; simp at hne
+  | succ m => simp [List.mem_range'_1]
+
+/-! ## non-vacuity: a concrete pipeline run to completion (ring of 2, one handler, batches 1 and 1, spin wait) -/
+
+def demoSched : List Tid :=
+  (List.replicate 12 Tid.prod) ++ (List.replicate 12 (Tid.cons 0 0)) ++ (List.replicate 12 Tid.prod) ++
+  (List.replicate 12 (Tid.cons 0 0))
+
+example : (runX (mk 2 1 (fun _ => 1) false [1, 1]) demoSched).p.pc = .done ∧
+    ((runX (mk 2 1 (fun _ => 1) false [1, 1]) demoSched).s.cons 0 0).pc = .done ∧
+    ((runX (mk 2 1 (fun _ => 1) false [1, 1]) demoSched).s.cons 0 0).log = [1] ∧
+    (runX (mk 2 1 (fun _ => 1) false [1, 1]) demoSched).p.written = [0, 1] := by decide +kernel
+
+example : Reachable (runX (mk 2 1 (fun _ => 1) false [1, 1]) demoSched) :=
+  ⟨2, 1, fun _ => 1, false, [1, 1], demoSched, by decide, by intro k _; simp, by decide, rfl⟩
+
 end C04
